@@ -289,6 +289,11 @@ class ScalarFuncs:
     @_scalar_func_decorator
     def sum(cur_sum, next_val, count):
         if count:
+            if is_null(cur_sum):
+                # a null (NaT / integer sentinel) poisons the running sum, as NaN does for floats
+                return cur_sum, count + 1
+            if is_null(next_val):
+                return next_val, count + 1
             return cur_sum + next_val, count + 1
         else:
             return next_val, count + 1
